@@ -247,9 +247,12 @@ def rpc_frame(body, version=1, size=None):
 def gen_rpc(rng, big):
     out, marks, bad = [], [], []
     nitems = rng.choice([1, 2, 2, 3, 4, 6, 10]) if not big else rng.choice([2, 12, 30])
-    for _ in range(nitems):
+    for item in range(nitems):
         marks.append(len(out))
         k = rng.random()
+        if 0.88 <= k < 0.94 and item != nitems - 1:
+            k = 0.1    # a truncated frame is generated only at the end of the stream (what it would
+                       # swallow as its body has an unknown parse verdict)
         ty = rng.choice([1, 2, 3, 4, 5, 10, 1, 2, 10, 6, 7, 9])
         nbuf = rng.choice([None, 0, 1, 5, 30, 200, 2030, 2040, 2047, 2048, 2049, 3000])
         if big and rng.random() < 0.2:
@@ -267,12 +270,11 @@ def gen_rpc(rng, big):
             if b not in bad:
                 bad.append(b)
             out += rpc_frame(b)
-        elif k < 0.94:     # truncated frame (then whatever follows is swallowed as its body)
+        elif k < 0.94:     # truncated frame
             f = rpc_frame(rpc_body(rng, ty, rng.choice([5, 30, 200])))
             out += f[:rng.randrange(1, len(f))]
-        else:              # size field larger than the body present
-            body = rpc_body(rng, ty, 10)
-            out += rpc_frame(body, size=len(body) + rng.choice([1, 4, 50]))
+        else:              # a body with a trailing field the parser does not know (accepted)
+            out += rpc_frame(rpc_body(rng, ty, 10) + [0x28, rng.randrange(128)])
     marks.append(len(out))
     return out, marks, bad
 
@@ -350,6 +352,7 @@ def gen_cases(rng, tier):
     for i in range(300 if quick else 4000):
         big = (i % 40 == 39)
         st, marks, bad = gen_rpc(rng, big)
+        st = st[:150000]      # one chunk must fit the socket buffer of the harness
         coarse = len(st) > 6000 and quick
         cap = rng.choice([0, 0, 0, 0, 1, 2, 3, 7, 100])
         yield 'rpc %d %s %s %s' % (cap, hx(st), '/'.join(partitions(rng, len(st), marks, coarse or (big and quick), coarse)),
